@@ -1,25 +1,1422 @@
+// Family c52: accounts/keystore (passphrase.go, key.go, keystore.go) vs coq/Crypto/Keystore.v.
+//
+// The model cannot compute scrypt / PBKDF2 / AES / secp256k1: Gen computes, with
+// golang.org/x/crypto and crypto/aes, the derived keys, keystreams, raw CBC plaintexts and
+// addresses a case needs and ships them as tables (see coq/Run/C52.v); the model computes the
+// MAC (Keccak) and takes every accept/reject decision itself.
 package main
 
 import (
+	"bytes"
+	"crypto/aes"
+	"crypto/cipher"
+	crand "crypto/rand"
+	"crypto/sha256"
+	"encoding/hex"
+	"encoding/json"
+	"errors"
 	"fmt"
+	"io"
+	"math/big"
+	"os"
+	"path/filepath"
+	"regexp"
+	"strconv"
+	"strings"
+	"time"
 
+	"github.com/ethereum/go-ethereum/accounts"
 	"github.com/ethereum/go-ethereum/accounts/keystore"
+	"github.com/ethereum/go-ethereum/common"
+	"github.com/ethereum/go-ethereum/crypto"
+	"github.com/google/uuid"
+	"golang.org/x/crypto/pbkdf2"
+	"golang.org/x/crypto/scrypt"
+
+	. "gethverif/harness/hxlib"
 )
 
-func try(name, js, pass string) {
+// ---------------------------------------------------------------- rigged crypto/rand
+
+// EncryptDataV3 reads salt (32) then iv (16) from crypto/rand.Reader; the harness queues the
+// bytes of the case there so that the real EncryptKey is a deterministic function of the case.
+type rigged struct {
+	q    []byte
+	real io.Reader
+}
+
+func (r *rigged) Read(p []byte) (int, error) {
+	if len(r.q) == 0 {
+		return r.real.Read(p)
+	}
+	n := copy(p, r.q)
+	r.q = r.q[n:]
+	return n, nil
+}
+
+var rig = &rigged{real: crand.Reader}
+
+func queue(bs ...[]byte) {
+	rig.q = nil
+	for _, b := range bs {
+		rig.q = append(rig.q, b...)
+	}
+}
+
+// ---------------------------------------------------------------- JSON trees
+
+type jnode struct {
+	kind int // 0 null 1 bool 2 num 3 str 4 arr 5 obj 6 invalid
+	b    bool
+	num  string // literal
+	s    string
+	kvs  []jkv
+}
+type jkv struct {
+	k string
+	v *jnode
+}
+
+var intLit = regexp.MustCompile(`^-?[0-9]+$`)
+
+var errBadNum = errors.New("number out of float64 range")
+
+func readValue(dec *json.Decoder) (*jnode, error) {
+	t, err := dec.Token()
+	if err != nil {
+		return nil, err
+	}
+	switch v := t.(type) {
+	case nil:
+		return &jnode{kind: 0}, nil
+	case bool:
+		return &jnode{kind: 1, b: v}, nil
+	case json.Number:
+		if _, err := strconv.ParseFloat(string(v), 64); err != nil {
+			return nil, errBadNum
+		}
+		return &jnode{kind: 2, num: string(v)}, nil
+	case string:
+		return &jnode{kind: 3, s: v}, nil
+	case json.Delim:
+		if v == '[' {
+			for dec.More() {
+				if _, err := readValue(dec); err != nil {
+					return nil, err
+				}
+			}
+			if _, err := dec.Token(); err != nil {
+				return nil, err
+			}
+			return &jnode{kind: 4}, nil
+		}
+		if v == '{' {
+			n := &jnode{kind: 5}
+			for dec.More() {
+				kt, err := dec.Token()
+				if err != nil {
+					return nil, err
+				}
+				k, ok := kt.(string)
+				if !ok {
+					return nil, errors.New("non-string key")
+				}
+				val, err := readValue(dec)
+				if err != nil {
+					return nil, err
+				}
+				n.kvs = append(n.kvs, jkv{k, val})
+			}
+			if _, err := dec.Token(); err != nil {
+				return nil, err
+			}
+			return n, nil
+		}
+	}
+	return nil, errors.New("unexpected token")
+}
+
+// parseTree: the JSON value tree encoding/json sees in text (key order and duplicates kept,
+// strings decoded); kind 6 when encoding/json rejects the text (syntax, or a number that does
+// not fit float64, which fails the first Unmarshal into map[string]interface{}).
+func parseTree(text []byte) *jnode {
+	if !json.Valid(text) {
+		return &jnode{kind: 6}
+	}
+	dec := json.NewDecoder(bytes.NewReader(text))
+	dec.UseNumber()
+	n, err := readValue(dec)
+	if err != nil {
+		return &jnode{kind: 6}
+	}
+	return n
+}
+
+func truncInt(lit string) int64 {
+	f, _ := strconv.ParseFloat(lit, 64)
+	return int64(int(f)) // exactly what ensureInt computes
+}
+
+func (n *jnode) sx() Sx {
+	switch n.kind {
+	case 0:
+		return L(I(0))
+	case 1:
+		return L(I(1), Bool(n.b))
+	case 2:
+		if intLit.MatchString(n.num) {
+			z, _ := new(big.Int).SetString(n.num, 10)
+			return L(I(2), I(1), Big(z), I(truncInt(n.num)))
+		}
+		return L(I(2), I(0), I(0), I(truncInt(n.num)))
+	case 3:
+		return L(I(3), B([]byte(n.s)))
+	case 4:
+		return L(I(4))
+	case 5:
+		items := SL{}
+		for _, kv := range n.kvs {
+			items = append(items, L(B([]byte(kv.k)), kv.v.sx()))
+		}
+		return L(I(5), items)
+	}
+	return L(I(6))
+}
+
+func (n *jnode) render(sb *strings.Builder) {
+	switch n.kind {
+	case 0:
+		sb.WriteString("null")
+	case 1:
+		if n.b {
+			sb.WriteString("true")
+		} else {
+			sb.WriteString("false")
+		}
+	case 2:
+		sb.WriteString(n.num)
+	case 3:
+		b, _ := json.Marshal(n.s)
+		sb.Write(b)
+	case 4:
+		sb.WriteString("[1,\"x\"]")
+	case 5:
+		sb.WriteByte('{')
+		for i, kv := range n.kvs {
+			if i > 0 {
+				sb.WriteByte(',')
+			}
+			b, _ := json.Marshal(kv.k)
+			sb.Write(b)
+			sb.WriteByte(':')
+			kv.v.render(sb)
+		}
+		sb.WriteByte('}')
+	default:
+		sb.WriteString("{")
+	}
+}
+func (n *jnode) text() []byte {
+	var sb strings.Builder
+	n.render(&sb)
+	return []byte(sb.String())
+}
+
+func (n *jnode) get(k string) *jnode {
+	if n == nil || n.kind != 5 {
+		return nil
+	}
+	for i := len(n.kvs) - 1; i >= 0; i-- {
+		if n.kvs[i].k == k {
+			return n.kvs[i].v
+		}
+	}
+	return nil
+}
+func (n *jnode) set(k string, v *jnode) {
+	for i := range n.kvs {
+		if n.kvs[i].k == k {
+			n.kvs[i].v = v
+			return
+		}
+	}
+	n.kvs = append(n.kvs, jkv{k, v})
+}
+func (n *jnode) del(k string) {
+	out := n.kvs[:0:0]
+	for _, kv := range n.kvs {
+		if kv.k != k {
+			out = append(out, kv)
+		}
+	}
+	n.kvs = out
+}
+func (n *jnode) rename(k, k2 string) {
+	for i := range n.kvs {
+		if n.kvs[i].k == k {
+			n.kvs[i].k = k2
+		}
+	}
+}
+func jstr(s string) *jnode { return &jnode{kind: 3, s: s} }
+func jnum(s string) *jnode { return &jnode{kind: 2, num: s} }
+
+// ---------------------------------------------------------------- tables (Section data)
+
+type tables struct {
+	kdf, ctr, cbc, addr SL
+	seen                map[string]bool
+}
+
+func newTables() *tables { return &tables{seen: map[string]bool{}} }
+func (t *tables) sx() Sx {
+	return L(orEmpty(t.kdf), orEmpty(t.ctr), orEmpty(t.cbc), orEmpty(t.addr))
+}
+func orEmpty(l SL) Sx {
+	if l == nil {
+		return SL{}
+	}
+	return l
+}
+
+const (
+	maxN     = 1 << 14
+	maxRP    = 16
+	maxC     = 200000
+	maxDkLen = 1 << 16
+)
+
+// scrypt parameters the harness is willing to run (valid for scrypt.Key and cheap)
+func scryptSafe(n, r, p int) bool {
+	return n > 1 && n&(n-1) == 0 && n <= maxN && r > 0 && r <= maxRP && p > 0 && p <= maxRP
+}
+
+func (t *tables) addScrypt(pass, salt []byte, n, r, p int) []byte {
+	if !scryptSafe(n, r, p) {
+		return nil
+	}
+	dk, err := scrypt.Key(pass, salt, n, r, p, 32)
+	if err != nil {
+		return nil
+	}
+	key := fmt.Sprintf("s%x|%x|%d|%d|%d", pass, salt, n, r, p)
+	if !t.seen[key] {
+		t.seen[key] = true
+		t.kdf = append(t.kdf, L(B(pass), B(salt), B(dk), I(0), I(int64(n)), I(int64(r)), I(int64(p))))
+	}
+	return dk
+}
+func (t *tables) addPbkdf2(pass, salt []byte, c int) []byte {
+	if c > maxC {
+		return nil
+	}
+	dk := pbkdf2.Key(pass, salt, c, 32, sha256.New)
+	key := fmt.Sprintf("p%x|%x|%d", pass, salt, c)
+	if !t.seen[key] {
+		t.seen[key] = true
+		t.kdf = append(t.kdf, L(B(pass), B(salt), B(dk), I(1), I(int64(c))))
+	}
+	return dk
+}
+func ctrStream(key, iv []byte, n int) []byte {
+	blk, _ := aes.NewCipher(key)
+	out := make([]byte, n)
+	cipher.NewCTR(blk, iv).XORKeyStream(out, out)
+	return out
+}
+func (t *tables) addCtr(key16, iv []byte, n int) []byte {
+	if len(iv) != 16 || len(key16) != 16 {
+		return nil
+	}
+	ks := ctrStream(key16, iv, n)
+	t.ctr = append(t.ctr, L(B(key16), B(iv), B(ks)))
+	return ks
+}
+func (t *tables) addCbc(key16, iv, ct []byte) []byte {
+	if len(iv) != 16 || len(ct)%16 != 0 {
+		return nil
+	}
+	blk, _ := aes.NewCipher(key16)
+	out := make([]byte, len(ct))
+	cipher.NewCBCDecrypter(blk, iv).CryptBlocks(out, ct)
+	t.cbc = append(t.cbc, L(B(key16), B(iv), B(ct), B(out)))
+	return out
+}
+func (t *tables) addAddr(key32 []byte) {
+	if len(key32) != 32 {
+		return
+	}
+	k, err := crypto.ToECDSA(key32)
+	if err != nil {
+		return
+	}
+	a := crypto.PubkeyToAddress(k.PublicKey)
+	t.addr = append(t.addr, L(B(key32), B(a[:])))
+}
+
+func xor(a, b []byte) []byte {
+	out := make([]byte, len(a))
+	for i := range a {
+		out[i] = a[i] ^ b[i]
+	}
+	return out
+}
+
+// mirror of key.go's structs, used only to find out (best effort, errors ignored) which
+// primitive computations a mutated file can possibly need
+type mCrypto struct {
+	Cipher       string                 `json:"cipher"`
+	CipherText   string                 `json:"ciphertext"`
+	CipherParams struct{ IV string }    `json:"cipherparams"`
+	KDF          string                 `json:"kdf"`
+	KDFParams    map[string]interface{} `json:"kdfparams"`
+	MAC          string                 `json:"mac"`
+}
+type mKey struct {
+	Crypto mCrypto `json:"crypto"`
+}
+
+func num(x interface{}) (int, bool) {
+	f, ok := x.(float64)
+	if !ok {
+		return 0, false
+	}
+	return int(f), true
+}
+
+// collect supplies every table entry the decryption of text with pass can need; ok=false when
+// the file asks for a computation the harness refuses to run (resource guard).
+func (t *tables) collect(text []byte, pass []byte) (ok bool) {
+	var k mKey
+	_ = json.Unmarshal(text, &k)
+	return t.collectCrypto(k.Crypto, pass)
+}
+
+func (t *tables) collectCrypto(cj mCrypto, pass []byte) bool {
+	saltHex, isStr := cj.KDFParams["salt"].(string)
+	if !isStr {
+		return true
+	}
+	salt, err := hex.DecodeString(saltHex)
+	if err != nil {
+		return true
+	}
+	if dl, ok := num(cj.KDFParams["dklen"]); ok && dl > maxDkLen {
+		return false
+	}
+	var dk []byte
+	switch cj.KDF {
+	case "scrypt":
+		n, ok1 := num(cj.KDFParams["n"])
+		r, ok2 := num(cj.KDFParams["r"])
+		p, ok3 := num(cj.KDFParams["p"])
+		if !ok1 || !ok2 || !ok3 {
+			return true
+		}
+		if _, e := scryptCheck(n, r, p); e != nil {
+			return true // scrypt.Key rejects the parameters without computing
+		}
+		if !scryptSafe(n, r, p) {
+			return false
+		}
+		dk = t.addScrypt(pass, salt, n, r, p)
+	case "pbkdf2":
+		c, ok := num(cj.KDFParams["c"])
+		if !ok {
+			return true
+		}
+		if c > maxC {
+			return false
+		}
+		dk = t.addPbkdf2(pass, salt, c)
+	default:
+		return true
+	}
+	if dk == nil {
+		return true
+	}
+	iv, err1 := hex.DecodeString(cj.CipherParams.IV)
+	ct, err2 := hex.DecodeString(cj.CipherText)
+	if err1 != nil || err2 != nil {
+		return true
+	}
+	if ks := t.addCtr(dk[:16], iv, len(ct)); ks != nil {
+		t.addAddr(xor(ct, ks))
+	}
+	if raw := t.addCbc(crypto.Keccak256(dk[:16])[:16], iv, ct); raw != nil {
+		if n := len(raw); n > 0 {
+			pad := int(raw[n-1])
+			if pad > 0 && pad <= n {
+				t.addAddr(raw[:n-pad])
+			}
+		}
+	}
+	return true
+}
+
+// scryptCheck reproduces only the argument validation of scrypt.Key by calling it with N=2
+// semantics avoided: we call the real function when cheap, else decide by its documented rule.
+func scryptCheck(n, r, p int) ([]byte, error) {
+	if n <= 1 || n&(n-1) != 0 || r <= 0 || p <= 0 {
+		return nil, errors.New("invalid")
+	}
+	const maxInt = int(^uint(0) >> 1)
+	if uint64(r)*uint64(p) >= 1<<30 || r > maxInt/128/p || r > maxInt/256 || n > maxInt/128/r {
+		return nil, errors.New("too large")
+	}
+	return nil, nil
+}
+
+// ---------------------------------------------------------------- error classes
+
+func classify(err error) int64 {
+	var se *json.SyntaxError
+	var te *json.UnmarshalTypeError
+	var hb hex.InvalidByteError
+	msg := err.Error()
+	switch {
+	case errors.Is(err, keystore.ErrDecrypt):
+		return 7
+	case errors.As(err, &se), errors.As(err, &te), strings.HasPrefix(msg, "json:"), errors.Is(err, io.ErrUnexpectedEOF):
+		return 1
+	case errors.As(err, &hb), errors.Is(err, hex.ErrLength):
+		return 5
+	case strings.HasPrefix(msg, "version not supported"):
+		return 2
+	case strings.HasPrefix(msg, "invalid UUID"), strings.HasPrefix(msg, "invalid urn prefix"):
+		return 3
+	case strings.HasPrefix(msg, "cipher not supported"):
+		return 4
+	case strings.HasPrefix(msg, "unsupported KDF"), strings.HasPrefix(msg, "unsupported PBKDF2 PRF"),
+		strings.HasPrefix(msg, "scrypt:"), strings.HasPrefix(msg, "invalid KDF parameter"):
+		return 6
+	case strings.HasPrefix(msg, "invalid key:"):
+		return 8
+	case strings.HasPrefix(msg, "key content mismatch"):
+		return 9
+	case strings.HasPrefix(msg, "invalid IV length"), strings.HasPrefix(msg, "invalid ciphertext length"):
+		return 12
+	}
+	return 99
+}
+
+type decRes struct {
+	key   *keystore.Key
+	err   error
+	panic string
+}
+
+func safeDecryptKey(text []byte, pass string) (r decRes) {
 	defer func() {
 		if e := recover(); e != nil {
-			fmt.Println(name, "PANIC:", e)
+			r = decRes{panic: fmt.Sprint(e)}
 		}
 	}()
-	k, err := keystore.DecryptKey([]byte(js), pass)
-	fmt.Println(name, k != nil, err)
+	k, err := keystore.DecryptKey(text, pass)
+	return decRes{key: k, err: err}
+}
+
+func (r decRes) class() int64 {
+	if r.panic != "" {
+		return 10
+	}
+	if r.err != nil {
+		return classify(r.err)
+	}
+	return 0
+}
+func (r decRes) sx(withID bool) Sx {
+	if c := r.class(); c != 0 {
+		return L(I(1), I(c))
+	}
+	kb := crypto.FromECDSA(r.key.PrivateKey)
+	if withID {
+		return L(I(0), B(kb), B(r.key.Address[:]), B(r.key.Id[:]))
+	}
+	return L(I(0), B(kb), B(r.key.Address[:]))
+}
+
+func vfpass(meta SL) []byte {
+	if len(meta) >= 5 {
+		return AsBytes(meta[4])
+	}
+	return nil
+}
+
+func errSx(err error) Sx { return L(I(1), I(classify(err))) }
+
+// ---------------------------------------------------------------- Run
+
+func mkKey(d *big.Int, addr, id []byte) *keystore.Key {
+	kb := make([]byte, 32)
+	d.FillBytes(kb)
+	priv, err := crypto.ToECDSA(kb)
+	if err != nil {
+		panic("hxlib: case key is not a valid secp256k1 scalar")
+	}
+	var u uuid.UUID
+	if len(id) != 16 || len(addr) != 20 {
+		panic("hxlib: bad id/address length")
+	}
+	copy(u[:], id)
+	return &keystore.Key{Id: u, Address: common.BytesToAddress(addr), PrivateKey: priv}
+}
+
+func bytesList(v Sx) [][]byte {
+	var out [][]byte
+	for _, x := range AsList(v) {
+		out = append(out, AsBytes(x))
+	}
+	return out
+}
+
+func scratchDir() string {
+	base := ""
+	if st, err := os.Stat("/dev/shm"); err == nil && st.IsDir() {
+		base = "/dev/shm"
+	}
+	d, err := os.MkdirTemp(base, "c52ks")
+	if err != nil {
+		panic("hxlib: cannot create scratch dir: " + err.Error())
+	}
+	return d
+}
+
+func run(c Sx) Result {
+	l := AsList(c)
+	if len(l) < 2 {
+		panic("hxlib: short case")
+	}
+	var fails []string
+	res := Result{}
+	switch AsInt(l[0]) {
+	case 0: // EncryptKey, DecryptKey right / wrong passphrases
+		if len(l) != 11 {
+			panic("hxlib: case 0 shape")
+		}
+		d, addr, id, pass := AsBig(l[2]), AsBytes(l[3]), AsBytes(l[4]), AsBytes(l[5])
+		n, p, salt, iv := AsInt(l[6]), AsInt(l[7]), AsBytes(l[8]), AsBytes(l[9])
+		wrong := bytesList(l[10])
+		if len(salt) != 32 || len(iv) != 16 || !scryptSafe(n, 8, p) {
+			panic("hxlib: case 0 parameters")
+		}
+		key := mkKey(d, addr, id)
+		queue(salt, iv)
+		text, err := keystore.EncryptKey(key, string(pass), n, p)
+		queue()
+		if err != nil {
+			res.Obs = errSx(err)
+			fails = append(fails, "EncryptKey failed on valid parameters: "+err.Error())
+			break
+		}
+		right := safeDecryptKey(text, string(pass))
+		var ws SL
+		for _, w := range wrong {
+			r := safeDecryptKey(text, string(w))
+			ws = append(ws, r.sx(true))
+			if samePass(w, pass) {
+				res.Tags = append(res.Tags, "hmac-equivalent-pass")
+				if r.class() != 0 || r.key.PrivateKey.D.Cmp(d) != 0 {
+					fails = append(fails, "HMAC-equivalent passphrase spelling rejected")
+				}
+			} else if !(r.err != nil && errors.Is(r.err, keystore.ErrDecrypt)) {
+				fails = append(fails, fmt.Sprintf("wrong passphrase %x did not give ErrDecrypt (class %d %v %s)", w, r.class(), r.err, r.panic))
+			}
+		}
+		res.Obs = L(I(0), parseTree(text).sx(), right.sx(true), orEmpty(ws))
+		if right.class() != 0 {
+			fails = append(fails, fmt.Sprintf("right passphrase failed: class %d %v %s", right.class(), right.err, right.panic))
+		} else {
+			want := crypto.PubkeyToAddress(key.PrivateKey.PublicKey)
+			if right.key.PrivateKey.D.Cmp(d) != 0 || right.key.Address != want || right.key.Id != key.Id {
+				fails = append(fails, "decrypt(encrypt(k)) returned a different key / address / id")
+			}
+		}
+		res.Tags = append(res.Tags, "enc", fmt.Sprintf("n%d", n), fmt.Sprintf("p%d", p), fmt.Sprintf("passlen%d", min(len(pass), 40)/8*8))
+		res.NonTrivial = len(wrong) > 0
+	case 1: // DecryptKey on a (mutated) file
+		if len(l) != 6 {
+			panic("hxlib: case 1 shape")
+		}
+		pass, text, meta := AsBytes(l[3]), AsBytes(l[4]), AsList(l[5])
+		if String(parseTree(text).sx()) != String(l[2]) {
+			panic("hxlib: case tree does not match case text")
+		}
+		if !resourceOK(text) {
+			panic("hxlib: case exceeds the resource guard")
+		}
+		r := safeDecryptKey(text, string(pass))
+		res.Obs = r.sx(true)
+		if r.panic != "" {
+			fails = append(fails, "keyfile-panic: DecryptKey panicked: "+r.panic)
+		}
+		if r.class() == 99 {
+			fails = append(fails, "unclassified error: "+r.err.Error())
+		}
+		kind := int64(0)
+		var okey, oaddr []byte
+		mut := "none"
+		if len(meta) >= 4 {
+			kind, okey, oaddr, mut = AsBig(meta[0]).Int64(), AsBytes(meta[1]), AsBytes(meta[2]), string(AsBytes(meta[3]))
+		}
+		same := r.class() == 0 && bytes.Equal(crypto.FromECDSA(r.key.PrivateKey), okey) && bytes.Equal(r.key.Address[:], oaddr)
+		switch kind {
+		case 1: // valid file, right passphrase
+			if !same {
+				fails = append(fails, fmt.Sprintf("valid file + right passphrase did not return the key (class %d)", r.class()))
+			}
+		case 2: // valid file, wrong passphrase
+			if samePass(pass, vfpass(meta)) {
+				res.Tags = append(res.Tags, "hmac-equivalent-pass")
+				if !same {
+					fails = append(fails, "HMAC-equivalent passphrase spelling rejected")
+				}
+			} else if !(r.err != nil && errors.Is(r.err, keystore.ErrDecrypt)) {
+				fails = append(fails, fmt.Sprintf("wrong passphrase did not give ErrDecrypt (class %d)", r.class()))
+			}
+		case 3: // ciphertext or MAC bytes changed, right passphrase: must be an error
+			if r.class() == 0 {
+				fails = append(fails, "corrupted ciphertext/MAC accepted")
+			}
+		case 4: // any other mutation, right passphrase: an error, the original key, or (IV only) a
+			// different key whose address differs from the original (caught by GetKey)
+			if r.class() == 0 && !same && bytes.Equal(r.key.Address[:], oaddr) {
+				fails = append(fails, "mutated file decrypted to a different key with the original address")
+			}
+		}
+		res.Tags = append(res.Tags, "dec", "mut:"+mut, fmt.Sprintf("class%d", r.class()))
+		res.NonTrivial = kind != 0
+	case 2: // EncryptDataV3 / DecryptDataV3
+		if len(l) != 9 {
+			panic("hxlib: case 2 shape")
+		}
+		data, pass := AsBytes(l[2]), AsBytes(l[3])
+		n, p, salt, iv := AsInt(l[4]), AsInt(l[5]), AsBytes(l[6]), AsBytes(l[7])
+		wrong := bytesList(l[8])
+		if len(salt) != 32 || len(iv) != 16 || !scryptSafe(n, 8, p) {
+			panic("hxlib: case 2 parameters")
+		}
+		queue(salt, iv)
+		cj, err := keystore.EncryptDataV3(data, pass, n, p)
+		queue()
+		if err != nil {
+			res.Obs = errSx(err)
+			fails = append(fails, "EncryptDataV3 failed: "+err.Error())
+			break
+		}
+		ddec := func(pw []byte) (Sx, []byte, error) {
+			var out []byte
+			var err error
+			pan := ""
+			func() {
+				defer func() {
+					if e := recover(); e != nil {
+						pan = fmt.Sprint(e)
+					}
+				}()
+				out, err = keystore.DecryptDataV3(cj, string(pw))
+			}()
+			if pan != "" {
+				fails = append(fails, "keyfile-panic: DecryptDataV3 panicked: "+pan)
+				return L(I(1), I(10)), nil, errors.New("panic")
+			}
+			if err != nil {
+				return errSx(err), nil, err
+			}
+			return L(I(0), B(out)), out, nil
+		}
+		txt, _ := json.Marshal(cj)
+		o1, pt, err1 := ddec(pass)
+		if err1 != nil || !bytes.Equal(pt, data) {
+			fails = append(fails, "DecryptDataV3(EncryptDataV3(data)) != data")
+		}
+		var ws SL
+		for _, w := range wrong {
+			o, _, e := ddec(w)
+			ws = append(ws, o)
+			if samePass(w, pass) {
+				res.Tags = append(res.Tags, "hmac-equivalent-pass")
+			} else if !errors.Is(e, keystore.ErrDecrypt) {
+				fails = append(fails, "DecryptDataV3 with a wrong passphrase did not give ErrDecrypt")
+			}
+		}
+		res.Obs = L(I(0), parseTree(txt).sx(), o1, orEmpty(ws))
+		res.Tags = append(res.Tags, "data", fmt.Sprintf("datalen%d", min(len(data), 96)/16*16))
+		res.NonTrivial = len(data) > 0
+	case 4: // KeyStore: import, reload from disk, export, tampered address field
+		if len(l) != 13 {
+			panic("hxlib: case 4 shape")
+		}
+		d, pass := AsBig(l[2]), AsBytes(l[3])
+		n, p, salt, iv := AsInt(l[4]), AsInt(l[5]), AsBytes(l[6]), AsBytes(l[7])
+		newpass, salt2, iv2, wrong, other := AsBytes(l[8]), AsBytes(l[9]), AsBytes(l[10]), AsBytes(l[11]), AsBytes(l[12])
+		if len(salt) != 32 || len(iv) != 16 || len(salt2) != 32 || len(iv2) != 16 || len(other) != 20 || !scryptSafe(n, 8, p) {
+			panic("hxlib: case 4 parameters")
+		}
+		key := mkKey(d, make([]byte, 20), make([]byte, 16))
+		dir := scratchDir()
+		defer os.RemoveAll(dir)
+		ks := keystore.NewKeyStore(filepath.Join(dir, "a"), n, p)
+		queue(salt, iv)
+		acct, err := ks.ImportECDSA(key.PrivateKey, string(pass))
+		queue()
+		if err != nil {
+			res.Obs = errSx(err)
+			fails = append(fails, "ImportECDSA failed: "+err.Error())
+			break
+		}
+		wantAddr := crypto.PubkeyToAddress(key.PrivateKey.PublicKey)
+		// a fresh KeyStore on the same directory: the key is loaded from disk
+		ks2 := keystore.NewKeyStore(filepath.Join(dir, "a"), n, p)
+		accs := ks2.Accounts()
+		if len(accs) != 1 || accs[0].Address != wantAddr || acct.Address != wantAddr {
+			fails = append(fails, "reloaded keystore does not list exactly the imported account")
+			res.Obs = L()
+			break
+		}
+		export := func(k *keystore.KeyStore, a accounts.Account, pw, npw []byte) ([]byte, Sx, error) {
+			queue(salt2, iv2)
+			defer queue()
+			js, err := k.Export(a, string(pw), string(npw))
+			if err != nil {
+				return nil, errSx(err), err
+			}
+			return js, nil, nil
+		}
+		// getkey (right passphrase): Export decrypts with GetKey and re-encrypts; decrypt the export
+		var o1, o3 Sx
+		js, e1, err := export(ks2, accs[0], pass, newpass)
+		if err != nil {
+			o1, o3 = e1, e1
+			fails = append(fails, "stored key does not load with its passphrase: "+err.Error())
+		} else {
+			r := safeDecryptKey(js, string(newpass))
+			o3 = r.sx(false)
+			if r.class() != 0 || r.key.PrivateKey.D.Cmp(d) != 0 || r.key.Address != wantAddr {
+				fails = append(fails, "store/load/export round trip lost the key")
+			}
+			o1 = L(I(0), B(crypto.FromECDSA(key.PrivateKey)), B(wantAddr[:]))
+			if r.class() != 0 {
+				o1 = o3
+			}
+		}
+		_, o2, err2 := export(ks2, accs[0], wrong, newpass)
+		if o2 == nil {
+			o2 = L(I(0))
+		}
+		if samePass(wrong, pass) {
+			res.Tags = append(res.Tags, "hmac-equivalent-pass")
+		} else if !errors.Is(err2, keystore.ErrDecrypt) {
+			fails = append(fails, "keystore accepted a wrong passphrase")
+		}
+		// tampered address field: same file, address replaced, in a second directory
+		var o4 Sx = L(I(0))
+		raw, _ := os.ReadFile(accs[0].URL.Path)
+		tree := parseTree(raw)
+		tree.set("address", jstr(hex.EncodeToString(other)))
+		dirB := filepath.Join(dir, "b")
+		os.MkdirAll(dirB, 0700)
+		os.WriteFile(filepath.Join(dirB, "UTC--tampered"), tree.text(), 0600)
+		ks3 := keystore.NewKeyStore(dirB, n, p)
+		if accs3 := ks3.Accounts(); len(accs3) == 1 && accs3[0].Address == common.BytesToAddress(other) {
+			js3, e3, err3 := export(ks3, accs3[0], pass, newpass)
+			if err3 != nil {
+				o4 = e3
+			} else {
+				r := safeDecryptKey(js3, string(newpass))
+				o4 = r.sx(false)
+			}
+			if common.BytesToAddress(other) != wantAddr && err3 == nil {
+				fails = append(fails, "keystore returned a key for an account whose address it does not match")
+			}
+		} else {
+			fails = append(fails, "tampered file not listed under its claimed address")
+		}
+		res.Obs = L(o1, o2, o3, o4)
+		res.Tags = append(res.Tags, "store")
+		res.NonTrivial = true
+	default:
+		panic("hxlib: unknown case kind")
+	}
+	if len(fails) > 0 {
+		res.Oracle = strings.Join(fails, "; ")
+	}
+	return res
+}
+
+func resourceOK(text []byte) bool {
+	t := newTables()
+	var k mKey
+	_ = json.Unmarshal(text, &k)
+	cj := k.Crypto
+	if dl, ok := num(cj.KDFParams["dklen"]); ok && dl > maxDkLen {
+		return false
+	}
+	_ = t
+	switch cj.KDF {
+	case "scrypt":
+		n, ok1 := num(cj.KDFParams["n"])
+		r, ok2 := num(cj.KDFParams["r"])
+		p, ok3 := num(cj.KDFParams["p"])
+		if ok1 && ok2 && ok3 {
+			if _, e := scryptCheck(n, r, p); e == nil && !scryptSafe(n, r, p) {
+				return false
+			}
+		}
+	case "pbkdf2":
+		if c, ok := num(cj.KDFParams["c"]); ok && c > maxC {
+			return false
+		}
+	}
+	return true
+}
+
+// ---------------------------------------------------------------- Gen
+
+var secpN, _ = new(big.Int).SetString("FFFFFFFFFFFFFFFFFFFFFFFFFFFFFFFEBAAEDCE6AF48A03BBFD25E8CD0364141", 16)
+
+func genD(r *Rng) *big.Int {
+	switch r.Intn(12) {
+	case 0:
+		return big.NewInt(int64(1 + r.Intn(3)))
+	case 1:
+		return new(big.Int).Sub(secpN, big.NewInt(int64(1+r.Intn(3))))
+	case 2: // leading zero bytes
+		return new(big.Int).SetBytes(r.Bytes(1 + r.Intn(20)))
+	}
+	for {
+		d := new(big.Int).SetBytes(r.Bytes(32))
+		if d.Sign() > 0 && d.Cmp(secpN) < 0 {
+			return d
+		}
+	}
+}
+
+func genPass(r *Rng) []byte {
+	switch r.Intn(10) {
+	case 0:
+		return []byte{}
+	case 1:
+		return []byte("пароль-密码-🔑")
+	case 2:
+		return []byte(strings.Repeat("long passphrase ", 8+r.Intn(40)))
+	case 3:
+		return r.Bytes(1 + r.Intn(20)) // arbitrary bytes, possibly invalid UTF-8
+	case 4:
+		return []byte("é́ \x00 tab\t")
+	}
+	const al = "abcdefghijklmnopqrstuvwxyzABCDEFGHIJKLMNOPQRSTUVWXYZ0123456789 !#"
+	n := 1 + r.Intn(16)
+	b := make([]byte, n)
+	for i := range b {
+		b[i] = al[r.Intn(len(al))]
+	}
+	return b
+}
+
+// hmacKey is the 64-byte HMAC-SHA256 key block a passphrase turns into: scrypt and PBKDF2 see
+// the passphrase only through it, so two passphrases with the same block (p and p||0x00.., or a
+// passphrase longer than 64 bytes and its SHA-256 digest) are THE SAME passphrase to the KDF.
+func hmacKey(p []byte) [64]byte {
+	var k [64]byte
+	if len(p) > 64 {
+		h := sha256.Sum256(p)
+		copy(k[:], h[:])
+	} else {
+		copy(k[:], p)
+	}
+	return k
+}
+func samePass(a, b []byte) bool { return hmacKey(a) == hmacKey(b) }
+
+func wrongOf(r *Rng, pass []byte) []byte {
+	if r.Chance(1, 12) { // HMAC-equivalent spelling: must be ACCEPTED
+		if len(pass) > 64 {
+			h := sha256.Sum256(pass)
+			return h[:]
+		}
+		if len(pass) < 64 {
+			return append(append([]byte{}, pass...), make([]byte, 1+r.Intn(64-len(pass)))...)
+		}
+	}
+	switch r.Intn(5) {
+	case 0:
+		return append(append([]byte{}, pass...), ' ')
+	case 1:
+		if len(pass) > 0 {
+			return append([]byte{}, pass[:len(pass)-1]...)
+		}
+		return []byte("x")
+	case 2:
+		if len(pass) > 0 {
+			w := append([]byte{}, pass...)
+			w[r.Intn(len(w))] ^= 1 << uint(r.Intn(7))
+			return w
+		}
+		return []byte{0}
+	case 3:
+		return bytes.ToUpper(append([]byte("a"), pass...))
+	}
+	for {
+		w := genPass(r)
+		if !bytes.Equal(w, pass) {
+			return w
+		}
+	}
+}
+
+func genNP(r *Rng) (int, int) {
+	if r.Chance(1, 30) {
+		return keystore.LightScryptN, keystore.LightScryptP
+	}
+	ns := []int{2, 2, 4, 8, 16, 64, 256, 1024}
+	ps := []int{1, 1, 2, 3, 6}
+	return ns[r.Intn(len(ns))], ps[r.Intn(len(ps))]
+}
+
+func addrOfD(d *big.Int) []byte {
+	kb := make([]byte, 32)
+	d.FillBytes(kb)
+	k, _ := crypto.ToECDSA(kb)
+	a := crypto.PubkeyToAddress(k.PublicKey)
+	return a[:]
+}
+
+func bsx(bs [][]byte) Sx {
+	out := SL{}
+	for _, b := range bs {
+		out = append(out, B(b))
+	}
+	return out
+}
+
+// a valid V3 scrypt file made by the real EncryptKey
+type validFile struct {
+	text       []byte
+	key, addr  []byte
+	pass       []byte
+	kind       string
+}
+
+func makeScryptFile(r *Rng) validFile {
+	d, pass := genD(r), genPass(r)
+	n, p := genNP(r)
+	key := mkKey(d, addrOfD(d), r.Bytes(16))
+	queue(r.Bytes(32), r.Bytes(16))
+	text, err := keystore.EncryptKey(key, string(pass), n, p)
+	queue()
+	if err != nil {
+		panic("hxlib: EncryptKey in Gen: " + err.Error())
+	}
+	return validFile{text, crypto.FromECDSA(key.PrivateKey), key.Address[:], pass, "scrypt"}
+}
+
+func cryptoNode(cipherName string, ct, iv []byte, kdf string, params *jnode, mac []byte) *jnode {
+	cp := &jnode{kind: 5}
+	cp.set("iv", jstr(hex.EncodeToString(iv)))
+	c := &jnode{kind: 5}
+	c.set("cipher", jstr(cipherName))
+	c.set("ciphertext", jstr(hex.EncodeToString(ct)))
+	c.set("cipherparams", cp)
+	c.set("kdf", jstr(kdf))
+	c.set("kdfparams", params)
+	c.set("mac", jstr(hex.EncodeToString(mac)))
+	return c
+}
+
+// a valid V3 PBKDF2 file (geth never writes these; built here from the format definition)
+func makePbkdf2File(r *Rng) validFile {
+	d, pass := genD(r), genPass(r)
+	kb := make([]byte, 32)
+	d.FillBytes(kb)
+	salt, iv := r.Bytes(r.Range(0, 40)), r.Bytes(16)
+	c := []int{1, 2, 3, 10, 100, 262}[r.Intn(6)]
+	dk := pbkdf2.Key(pass, salt, c, 32, sha256.New)
+	ct := xor(kb, ctrStream(dk[:16], iv, 32))
+	mac := crypto.Keccak256(dk[16:32], ct)
+	params := &jnode{kind: 5}
+	params.set("c", jnum(strconv.Itoa(c)))
+	params.set("dklen", jnum("32"))
+	params.set("prf", jstr("hmac-sha256"))
+	params.set("salt", jstr(hex.EncodeToString(salt)))
+	root := &jnode{kind: 5}
+	addr := addrOfD(d)
+	root.set("address", jstr(hex.EncodeToString(addr)))
+	root.set("crypto", cryptoNode("aes-128-ctr", ct, iv, "pbkdf2", params, mac))
+	root.set("id", jstr(uuid.UUID([16]byte(r.Bytes(16))).String()))
+	root.set("version", jnum("3"))
+	return validFile{root.text(), kb, addr, pass, "pbkdf2"}
+}
+
+// a valid version-"1" file (AES-128-CBC, key keccak(dk[:16])[:16], PKCS#7)
+func makeV1File(r *Rng) validFile {
+	d, pass := genD(r), genPass(r)
+	kb := make([]byte, 32)
+	d.FillBytes(kb)
+	salt, iv := r.Bytes(32), r.Bytes(16)
+	n, p := genNP(r)
+	dk, _ := scrypt.Key(pass, salt, n, 8, p, 32)
+	padded := append(append([]byte{}, kb...), bytes.Repeat([]byte{16}, 16)...)
+	blk, _ := aes.NewCipher(crypto.Keccak256(dk[:16])[:16])
+	ct := make([]byte, len(padded))
+	cipher.NewCBCEncrypter(blk, iv).CryptBlocks(ct, padded)
+	mac := crypto.Keccak256(dk[16:32], ct)
+	params := &jnode{kind: 5}
+	params.set("dklen", jnum("32"))
+	params.set("n", jnum(strconv.Itoa(n)))
+	params.set("p", jnum(strconv.Itoa(p)))
+	params.set("r", jnum("8"))
+	params.set("salt", jstr(hex.EncodeToString(salt)))
+	root := &jnode{kind: 5}
+	addr := addrOfD(d)
+	root.set("address", jstr(hex.EncodeToString(addr)))
+	root.set("crypto", cryptoNode("aes-128-cbc", ct, iv, "scrypt", params, mac))
+	root.set("id", jstr(uuid.UUID([16]byte(r.Bytes(16))).String()))
+	root.set("version", jstr("1"))
+	return validFile{root.text(), kb, addr, pass, "v1"}
+}
+
+func flipHex(r *Rng, s string) string {
+	b, err := hex.DecodeString(s)
+	if err != nil || len(b) == 0 {
+		return s + "00"
+	}
+	b[r.Intn(len(b))] ^= 1 << uint(r.Intn(8))
+	return hex.EncodeToString(b)
+}
+
+var badValues = []func() *jnode{
+	func() *jnode { return &jnode{kind: 0} },
+	func() *jnode { return &jnode{kind: 1, b: true} },
+	func() *jnode { return jnum("7") },
+	func() *jnode { return jnum("2.5") },
+	func() *jnode { return jstr("") },
+	func() *jnode { return jstr("zz") },
+	func() *jnode { return &jnode{kind: 4} },
+	func() *jnode { return &jnode{kind: 5} },
+}
+
+func hexMut(r *Rng, s string) (string, bool) { // (new value, decoded bytes changed)
+	switch r.Intn(7) {
+	case 0, 1, 2:
+		return flipHex(r, s), true
+	case 3:
+		if len(s) >= 2 {
+			return s[:len(s)-2], true
+		}
+		return "00", true
+	case 4:
+		if len(s) >= 1 {
+			return s[:len(s)-1], true // odd length
+		}
+		return "0", true
+	case 5:
+		if len(s) >= 1 {
+			i := r.Intn(len(s))
+			return s[:i] + "g" + s[i+1:], true
+		}
+		return "g0", true
+	}
+	return strings.ToUpper(s), false // same bytes, other spelling
+}
+
+// mutate applies one mutation to the tree of a valid file; returns the mutation name and the
+// oracle kind (3: ciphertext/MAC bytes changed; 4: anything else).
+func mutate(r *Rng, root *jnode) (string, int64) {
+	cr := root.get("crypto")
+	kp := cr.get("kdfparams")
+	strOf := func(n *jnode) string {
+		if n != nil && n.kind == 3 {
+			return n.s
+		}
+		return ""
+	}
+	numChoices := func(cur string) *jnode {
+		c, _ := strconv.Atoi(cur)
+		opts := []string{"0", "1", "3", "-1", strconv.Itoa(c * 2), strconv.Itoa(c + 1), strconv.Itoa(c) + ".0", strconv.Itoa(c) + ".7", "1e2", "-0", "16", "31", "33", "64", "9223372036854775807", "1e19", "4294967296"}
+		return jnum(opts[r.Intn(len(opts))])
+	}
+	switch r.Intn(16) {
+	case 0:
+		opts := []*jnode{jnum("1"), jnum("2"), jnum("4"), jnum("0"), jstr("3"), jstr("1"), jnum("3.0"), jnum("3e0"), {kind: 0}, jnum("-3"), jnum("99999999999999999999"), jstr("2")}
+		root.set("version", opts[r.Intn(len(opts))])
+		return "version", 4
+	case 1:
+		root.del("version")
+		return "version-missing", 4
+	case 2:
+		opts := []*jnode{jstr("aes-128-cbc"), jstr(""), jstr("AES-128-CTR"), jstr("aes-128-ctr "), {kind: 0}, jnum("5"), jstr("aes-256-ctr")}
+		cr.set("cipher", opts[r.Intn(len(opts))])
+		return "cipher", 4
+	case 3:
+		v, ch := hexMut(r, strOf(cr.get("ciphertext")))
+		cr.set("ciphertext", jstr(v))
+		if ch {
+			return "ciphertext", 3
+		}
+		return "ciphertext-case", 4
+	case 4:
+		v, ch := hexMut(r, strOf(cr.get("mac")))
+		cr.set("mac", jstr(v))
+		if ch {
+			return "mac", 3
+		}
+		return "mac-case", 4
+	case 5:
+		v, _ := hexMut(r, strOf(cr.get("cipherparams").get("iv")))
+		cr.get("cipherparams").set("iv", jstr(v))
+		return "iv", 4
+	case 6:
+		switch r.Intn(4) {
+		case 0:
+			kp.del("salt")
+			return "salt-missing", 4
+		case 1:
+			kp.set("salt", badValues[r.Intn(len(badValues))]())
+			return "salt-type", 4
+		}
+		v, _ := hexMut(r, strOf(kp.get("salt")))
+		kp.set("salt", jstr(v))
+		return "salt", 4
+	case 7:
+		opts := []string{"pbkdf2", "scrypt", "bcrypt", "", "SCRYPT", "Pbkdf2"}
+		cr.set("kdf", jstr(opts[r.Intn(len(opts))]))
+		return "kdf", 4
+	case 8, 9:
+		names := []string{"n", "r", "p", "dklen", "c", "prf"}
+		nm := names[r.Intn(len(names))]
+		cur := kp.get(nm)
+		switch r.Intn(5) {
+		case 0:
+			kp.del(nm)
+			return nm + "-missing", 4
+		case 1:
+			kp.set(nm, badValues[r.Intn(len(badValues))]())
+			return nm + "-type", 4
+		}
+		if nm == "prf" {
+			opts := []string{"hmac-sha512", "hmac-sha256", "", "HMAC-SHA256"}
+			kp.set(nm, jstr(opts[r.Intn(len(opts))]))
+			return "prf", 4
+		}
+		c := "8"
+		if cur != nil && cur.kind == 2 {
+			c = cur.num
+		}
+		kp.set(nm, numChoices(c))
+		return nm, 4
+	case 10:
+		opts := []*jnode{jstr(hex.EncodeToString(r.Bytes(20))), jstr(""), jstr("xyz"), {kind: 0}, jnum("1"), jstr("0x" + hex.EncodeToString(r.Bytes(20)))}
+		if r.Bool() {
+			root.del("address")
+			return "address-missing", 4
+		}
+		root.set("address", opts[r.Intn(len(opts))])
+		return "address", 4
+	case 11:
+		id := strOf(root.get("id"))
+		raw := strings.ReplaceAll(id, "-", "")
+		opts := []*jnode{jstr(raw), jstr("urn:uuid:" + id), jstr("URN:UUID:" + id), jstr("{" + id + "}"), jstr("(" + id + "]"), jstr(""), jstr(strings.ToUpper(id)),
+			jstr(strings.Replace(id, "-", "_", 1)), jstr(id + "0"), jnum("3"), {kind: 0}, jstr("urn:uuix:" + id), jstr("g" + raw[1:])}
+		if r.Chance(1, 6) {
+			root.del("id")
+			return "id-missing", 4
+		}
+		root.set("id", opts[r.Intn(len(opts))])
+		return "id", 4
+	case 12: // key spelling / duplicates
+		switch r.Intn(5) {
+		case 0:
+			root.rename("version", "Version")
+			return "key-case", 4
+		case 1:
+			root.rename("crypto", "CRYPTO")
+			cr.rename("kdfparams", "KdfParams")
+			cr.rename("mac", "MAC")
+			return "key-case", 4
+		case 2:
+			kp.rename("salt", "Salt") // map keys are exact: salt is now missing
+			return "mapkey-case", 4
+		case 3:
+			root.kvs = append([]jkv{{"version", jnum("1")}}, root.kvs...)
+			return "dup-version", 4
+		}
+		root.kvs = append(root.kvs, jkv{"crypto", &jnode{kind: 5, kvs: []jkv{{"mac", jstr("00")}}}})
+		return "dup-crypto-merge", 3
+	case 13:
+		opts := []func(){
+			func() { root.set("crypto", &jnode{kind: 0}) },
+			func() { root.set("crypto", jstr("x")) },
+			func() { root.del("crypto") },
+			func() { cr.set("kdfparams", &jnode{kind: 0}) },
+			func() { cr.set("kdfparams", &jnode{kind: 4}) },
+			func() { cr.del("kdfparams") },
+			func() { cr.set("cipherparams", &jnode{kind: 0}) },
+			func() { cr.set("cipherparams", jnum("1")) },
+			func() { cr.del("cipherparams") },
+			func() { root.set("extra", &jnode{kind: 4}) },
+			func() { kp.set("extra", &jnode{kind: 5}) },
+		}
+		opts[r.Intn(len(opts))]()
+		return "structure", 4
+	}
+	return "none", 1
+}
+
+func emitDec(emit func(Sx), text, pass []byte, kind int64, vf validFile, mut string) bool {
+	if !resourceOK(text) {
+		return false
+	}
+	t := newTables()
+	if !t.collect(text, pass) {
+		return false
+	}
+	emit(L(I(1), t.sx(), parseTree(text).sx(), B(pass), B(text), L(I(kind), B(vf.key), B(vf.addr), B([]byte(mut)), B(vf.pass))))
+	return true
+}
+
+func gen(r *Rng, tier string, emit func(Sx)) {
+	crand.Reader = rig
+	r = NewRng(r.U64())
+	scale := 1
+	if tier == "thorough" {
+		scale = 12
+	}
+	// EncryptKey + DecryptKey
+	for i := 0; i < 120*scale; i++ {
+		d, pass := genD(r), genPass(r)
+		n, p := genNP(r)
+		salt, iv, id := r.Bytes(32), r.Bytes(16), r.Bytes(16)
+		addr := addrOfD(d)
+		if r.Chance(1, 8) {
+			addr = r.Bytes(20) // the Address field of Key is copied, not derived
+		}
+		var wrong [][]byte
+		for j := r.Range(1, 3); j > 0; j-- {
+			wrong = append(wrong, wrongOf(r, pass))
+		}
+		t := newTables()
+		dk := t.addScrypt(pass, salt, n, 8, p)
+		t.addCtr(dk[:16], iv, 32)
+		kb := make([]byte, 32)
+		d.FillBytes(kb)
+		t.addAddr(kb)
+		for _, w := range wrong {
+			t.addScrypt(w, salt, n, 8, p)
+		}
+		emit(L(I(0), t.sx(), Big(d), B(addr), B(id), B(pass), I(int64(n)), I(int64(p)), B(salt), B(iv), bsx(wrong)))
+	}
+	// EncryptDataV3 + DecryptDataV3
+	for i := 0; i < 60*scale; i++ {
+		data := r.Bytes([]int{0, 1, 15, 16, 17, 32, 33, 64, 100}[r.Intn(9)])
+		pass := genPass(r)
+		n, p := genNP(r)
+		salt, iv := r.Bytes(32), r.Bytes(16)
+		wrong := [][]byte{wrongOf(r, pass)}
+		t := newTables()
+		dk := t.addScrypt(pass, salt, n, 8, p)
+		t.addCtr(dk[:16], iv, len(data))
+		t.addScrypt(wrong[0], salt, n, 8, p)
+		emit(L(I(2), t.sx(), B(data), B(pass), I(int64(n)), I(int64(p)), B(salt), B(iv), bsx(wrong)))
+	}
+	// DecryptKey on valid and mutated files
+	for i := 0; i < 700*scale; i++ {
+		var vf validFile
+		switch r.Intn(10) {
+		case 0, 1:
+			vf = makePbkdf2File(r)
+		case 2:
+			vf = makeV1File(r)
+		default:
+			vf = makeScryptFile(r)
+		}
+		switch r.Intn(12) {
+		case 0: // unmutated, right passphrase
+			emitDec(emit, vf.text, vf.pass, 1, vf, "valid-"+vf.kind)
+		case 1: // unmutated, wrong passphrase
+			emitDec(emit, vf.text, wrongOf(r, vf.pass), 2, vf, "wrongpass-"+vf.kind)
+		case 2, 3: // single-byte substitution in the file text
+			text := append([]byte{}, vf.text...)
+			i := r.Intn(len(text))
+			if r.Bool() {
+				text[i] ^= 1 << uint(r.Intn(8))
+			} else {
+				const al = "0123456789abcdefABCDEF\"{}[]:,. -+eEnulltrue\\"
+				text[i] = al[r.Intn(len(al))]
+			}
+			if bytes.Equal(text, vf.text) {
+				continue
+			}
+			kind := int64(4)
+			// did the decoded ciphertext or MAC bytes change?
+			var a, b mKey
+			json.Unmarshal(vf.text, &a)
+			if json.Unmarshal(text, &b) == nil && a.Crypto.KDF == b.Crypto.KDF && fmt.Sprint(a.Crypto.KDFParams) == fmt.Sprint(b.Crypto.KDFParams) &&
+				a.Crypto.CipherParams == b.Crypto.CipherParams && a.Crypto.Cipher == b.Crypto.Cipher {
+				ca, _ := hex.DecodeString(a.Crypto.CipherText)
+				cb, e1 := hex.DecodeString(b.Crypto.CipherText)
+				ma, _ := hex.DecodeString(a.Crypto.MAC)
+				mb, e2 := hex.DecodeString(b.Crypto.MAC)
+				if e1 != nil || e2 != nil || !bytes.Equal(ca, cb) || !bytes.Equal(ma, mb) {
+					kind = 3
+				}
+			}
+			emitDec(emit, text, vf.pass, kind, vf, "textbyte-"+vf.kind)
+		case 4: // garbage / truncation
+			var text []byte
+			switch r.Intn(4) {
+			case 0:
+				text = vf.text[:r.Intn(len(vf.text))]
+			case 1:
+				text = r.Bytes(r.Intn(40))
+			case 2:
+				text = [][]byte{[]byte("null"), []byte("[]"), []byte("3"), []byte("\"x\""), []byte("{}"), []byte(""), []byte("true"), []byte("{\"version\":\"1\"}"), []byte("{\"version\":3}")}[r.Intn(9)]
+			default:
+				text = append(append([]byte{}, vf.text...), vf.text...)
+			}
+			emitDec(emit, text, vf.pass, 0, vf, "garbage")
+		default: // structured single-field mutation, right passphrase
+			root := parseTree(vf.text)
+			mut, kind := mutate(r, root)
+			text := root.text()
+			if kind == 1 && !bytes.Equal(text, vf.text) {
+				kind = 4
+			}
+			emitDec(emit, text, vf.pass, kind, vf, mut+"-"+vf.kind)
+		}
+	}
+	// KeyStore in a temp dir
+	for i := 0; i < 25*scale; i++ {
+		d, pass := genD(r), genPass(r)
+		n, p := genNP(r)
+		if n > 1024 {
+			n = 1024
+		}
+		salt, iv, salt2, iv2 := r.Bytes(32), r.Bytes(16), r.Bytes(32), r.Bytes(16)
+		newpass, wrong, other := genPass(r), wrongOf(r, pass), r.Bytes(20)
+		other[0] |= 1
+		t := newTables()
+		kb := make([]byte, 32)
+		d.FillBytes(kb)
+		dk := t.addScrypt(pass, salt, n, 8, p)
+		t.addCtr(dk[:16], iv, 32)
+		t.addAddr(kb)
+		t.addScrypt(wrong, salt, n, 8, p)
+		dk2 := t.addScrypt(newpass, salt2, n, 8, p)
+		t.addCtr(dk2[:16], iv2, 32)
+		emit(L(I(4), t.sx(), Big(d), B(pass), I(int64(n)), I(int64(p)), B(salt), B(iv), B(newpass), B(salt2), B(iv2), B(wrong), B(other)))
+	}
 }
 
 func main() {
-	try("nokdfparams", `{"version":3,"id":"3198bc9c-6672-5ab3-d995-4942343ae5b6","crypto":{"cipher":"aes-128-ctr","mac":"","ciphertext":"","cipherparams":{"iv":""}}}`, "x")
-	try("dklen-string", `{"version":3,"id":"3198bc9c-6672-5ab3-d995-4942343ae5b6","crypto":{"cipher":"aes-128-ctr","mac":"","ciphertext":"","cipherparams":{"iv":""},"kdf":"scrypt","kdfparams":{"salt":"","dklen":"32","n":2,"r":8,"p":1}}}`, "x")
-	try("dklen0", `{"version":3,"id":"3198bc9c-6672-5ab3-d995-4942343ae5b6","crypto":{"cipher":"aes-128-ctr","mac":"","ciphertext":"","cipherparams":{"iv":""},"kdf":"scrypt","kdfparams":{"salt":"","dklen":0,"n":2,"r":8,"p":1}}}`, "x")
-	try("null", `null`, "x")
-	try("dklen16", `{"version":3,"id":"3198bc9c-6672-5ab3-d995-4942343ae5b6","crypto":{"cipher":"aes-128-ctr","mac":"","ciphertext":"","cipherparams":{"iv":""},"kdf":"scrypt","kdfparams":{"salt":"","dklen":16,"n":2,"r":8,"p":1}}}`, "x")
+	crand.Reader = rig
+	Main(Family{
+		ID: "C52",
+		Rule: "Stream A (mostly valid): random secp256k1 scalars (incl. 1..3, N-1..N-3, short scalars with leading zero bytes), passphrases (empty, unicode, 128-768 byte, arbitrary bytes, ASCII), scrypt n in {2..1024, LightScryptN 1/30}, p in {1,2,3,6}; (0) real EncryptKey with crypto/rand.Reader replaced by the case's salt|iv, then DecryptKey with the right and 1-3 wrong passphrases; (2) EncryptDataV3/DecryptDataV3 on data of 0..100 bytes; (4) KeyStore ImportECDSA in a temp dir (removed), fresh KeyStore on the directory, Export with right/wrong passphrase, DecryptKey of the export, same file with a foreign address field. " +
+			"Stream B (malformed/adversarial): (1) DecryptKey on files made by EncryptKey, PBKDF2 files and version-\"1\" files built from the format definition, unmutated (right / wrong passphrase) or with ONE mutation: version, cipher, ciphertext/mac/iv/salt bytes (bit flip, truncation, odd length, non-hex, upper-case spelling), kdf name, every kdf parameter (missing, wrong JSON type, 0/1/-1/x2/+1/float/exponent/2^63-1/1e19 values, dklen 16/31/33/64), prf, address, id (all uuid.Parse formats), key-name case, duplicate keys (version, merged crypto objects), null/mistyped/missing sub-objects, single-byte substitutions anywhere in the file text, truncations, random bytes, non-object JSON. Files asking for n>2^14, r|p>16, c>2e5, dklen>2^16 are not generated (resource guard). " +
+			"Non-trivial: an encryption followed by at least one wrong-passphrase attempt, a data round trip of >= 1 byte, a keystore round trip, or a decryption whose expected outcome is known to the oracle (valid / wrong passphrase / mutated file); distinct = distinct case line.",
+		Gen:         gen,
+		Run:         run,
+		CaseTimeout: 60 * time.Second,
+	})
 }
